@@ -6,7 +6,7 @@ wt = f"/tmp/wt-{pid}"
 r = subprocess.run(["python3", "/verif/tools/seedeval.py", pid, "quick"] + sys.argv[2:], stdout=subprocess.PIPE, text=True)
 res = json.loads(r.stdout)
 meta = {"changes": []}
-for mf in ("meta.json", "meta2.json", "meta3.json", "meta4.json", "meta5.json", "meta6.json", "meta7.json", "meta8.json"):
+for mf in ("meta.json", "meta2.json", "meta3.json", "meta4.json", "meta5.json", "meta6.json", "meta7.json", "meta8.json", "meta9.json"):
     try:
         meta["changes"] += json.load(open(f"{wt}/{mf}")).get("changes", [])
     except Exception:
